@@ -92,6 +92,57 @@ func Drive(p *Property, o DriveOpts) int {
 	close(ch)
 	wg.Wait()
 
+	// sanitizer replays: the same deterministic case lists (quick size) on
+	// instrumented builds of the worker; a report is process-fatal and is
+	// attributed to the open case like any other death
+	if bins := os.Getenv("VERIF_SAN_BINS"); bins != "" && o.Only == "" {
+		for _, kv := range strings.Split(bins, ",") {
+			parts := strings.SplitN(kv, "=", 2)
+			if len(parts) != 2 {
+				continue
+			}
+			for i := range p.Families {
+				f := &p.Families[i]
+				use := false
+				for _, n := range p.Sanitize {
+					if n == f.Name {
+						use = true
+					}
+				}
+				if !use {
+					continue
+				}
+				n := f.Count("quick")
+				before := agg.Cases
+				WorkerBinary = parts[1]
+				per := (n + o.Par - 1) / o.Par
+				if per < 1 {
+					per = 1
+				}
+				var wg2 sync.WaitGroup
+				sem := make(chan struct{}, o.Par)
+				k := 0
+				for lo := 0; lo < n; lo += per {
+					hi := lo + per
+					if hi > n {
+						hi = n
+					}
+					k++
+					wg2.Add(1)
+					sem <- struct{}{}
+					go func(lo, hi, k int) {
+						defer wg2.Done()
+						defer func() { <-sem }()
+						runChunk(p, chunk{f, lo, hi}, o, work, fmt.Sprintf("san_%s_%d", parts[0], k), agg, &mu)
+					}(lo, hi, k)
+				}
+				wg2.Wait()
+				WorkerBinary = ""
+				agg.Count["sanitizer_"+parts[0]+"_cases"] += agg.Cases - before
+			}
+		}
+	}
+
 	// verdict lines
 	viol := 0
 	outDir := o.VerifDir
